@@ -32,10 +32,12 @@ type Tail struct {
 }
 
 type Case struct {
-	Fillers  []int  `json:"fillers"` // per message: payload size of the filler AVP
-	Tail     Tail   `json:"tail"`
-	Cuts     []int  `json:"cuts"`     // fragment sizes; the remainder forms the last fragment
-	Consumer string `json:"consumer"` // direct (scripted reader) | conn | bytes.Reader | bytes.Buffer | strings.Reader (ReadMessage in a loop on an in-memory reader that knows its length)
+	Fillers []int `json:"fillers"` // per message: payload size of the filler AVP
+	Tail    Tail  `json:"tail"`
+	Cuts    []int `json:"cuts"` // fragment sizes; the remainder forms the last fragment
+	// ZeroEvery > 0 (scripted readers only): every n-th Read returns (0, nil) before data.
+	ZeroEvery int    `json:"zero_every,omitempty"`
+	Consumer  string `json:"consumer"` // direct (scripted reader) | conn | bytes.Reader | bytes.Buffer | strings.Reader (ReadMessage in a loop on an in-memory reader that knows its length)
 	// EOFWithData: the read that delivers the last fragment also reports io.EOF (as io.Reader
 	// allows; iotest.DataErrReader, TLS with a pending close_notify and in-memory transports do it).
 	EOFWithData bool `json:"eof_with_data,omitempty"`
@@ -146,6 +148,11 @@ type fragReader struct {
 	frags       [][]byte
 	consumed    int
 	eofWithData bool
+	// zeroEvery > 0: every zeroEvery-th call returns (0, nil) before it hands out data - an
+	// empty read, which the io.Reader contract tells callers to treat as "nothing happened"
+	// (net.Pipe delivers one for an empty Write of the peer)
+	zeroEvery int
+	calls     int
 }
 
 func (r *fragReader) Read(p []byte) (int, error) {
@@ -156,6 +163,10 @@ func (r *fragReader) Read(p []byte) (int, error) {
 		return 0, io.EOF
 	}
 	if len(p) == 0 {
+		return 0, nil
+	}
+	r.calls++
+	if r.zeroEvery > 0 && r.calls%r.zeroEvery == 0 {
 		return 0, nil
 	}
 	n := copy(p, r.frags[0])
@@ -188,7 +199,7 @@ type sizedReader interface {
 
 func runDirect(c Case) *ev.Failure {
 	msgs, all, _ := c.stream()
-	r := &fragReader{frags: c.fragments(all), eofWithData: c.EOFWithData}
+	r := &fragReader{frags: c.fragments(all), eofWithData: c.EOFWithData, zeroEvery: c.ZeroEvery}
 	var rd io.Reader = r
 	var sized sizedReader
 	switch c.Consumer {
@@ -333,6 +344,9 @@ func runCase(c Case) *ev.Failure {
 func classify(c Case) (bool, []string) {
 	msgs, all, _ := c.stream()
 	cl := []string{"consumer:" + c.Consumer, "tail:" + c.Tail.Kind}
+	if c.ZeroEvery > 0 {
+		cl = append(cl, "empty-reads-in-between")
+	}
 	if c.EOFWithData {
 		cl = append(cl, "eof-with-last-fragment")
 	}
@@ -432,6 +446,9 @@ func genCase(t *rapid.T) Case {
 	c.Consumer = rapid.SampledFrom([]string{"direct", "direct", "conn", "conn", "bytes.Reader", "bytes.Buffer", "strings.Reader", "bufio.Reader", "bufio.Reader16", "net.Conn"}).Draw(t, "consumer")
 	c.EOFWithData = rapid.IntRange(0, 2).Draw(t, "eof-with-data") == 0
 	c.NoPad = rapid.IntRange(0, 3).Draw(t, "no-pad") == 0
+	if c.Consumer != "conn" && rapid.IntRange(0, 5).Draw(t, "empty-reads") == 0 {
+		c.ZeroEvery = rapid.IntRange(2, 5).Draw(t, "zero-every")
+	}
 	if c.Consumer == "conn" && rapid.Bool().Draw(t, "answer") {
 		c.Answer = true
 		if rapid.Bool().Draw(t, "write-fault") {
@@ -461,7 +478,7 @@ func genCase(t *rapid.T) Case {
 
 var prop = ev.Register(&ev.Prop[Case]{
 	ID: "C05", Name: "stream",
-	Rule: "1..6 messages with bodies around the 1 KiB pooled buffer (996..1040), tiny, ~4 KiB, ~70 KB and (rarely) 1..8 MiB, concatenated; tail = clean end / truncation 1..79 bytes into a further message / a header declaring length 0..19 followed by 0..120 bytes that look like further messages; fragmentation = one segment / runs of 1-byte reads / boundary-sized fragments; 1 in 4 cases with every message's last AVP unpadded and the declared length exact (not a multiple of 4); consumed by ReadMessage in a loop on a scripted reader (which counts the bytes asked for), on bytes.Reader / bytes.Buffer / strings.Reader (which know how much they hold), through a bufio.Reader of the default and of the smallest size, on a bare net.Conn (scripted; counts the bytes asked for), and by the library's connection loop, whose handler optionally answers every message while one transport write is refused with a temporary error; non-trivial = >=2 messages and a read boundary strictly inside a message",
+	Rule: "1..6 messages with bodies around the 1 KiB pooled buffer (996..1040), tiny, ~4 KiB, ~70 KB and (rarely) 1..8 MiB, concatenated; tail = clean end / truncation 1..79 bytes into a further message / a header declaring length 0..19 followed by 0..120 bytes that look like further messages; fragmentation = one segment / runs of 1-byte reads / boundary-sized fragments, 1 in 6 scripted readers also return an empty read (0, nil) every 2nd..5th call; 1 in 4 cases with every message's last AVP unpadded and the declared length exact (not a multiple of 4); consumed by ReadMessage in a loop on a scripted reader (which counts the bytes asked for), on bytes.Reader / bytes.Buffer / strings.Reader (which know how much they hold), through a bufio.Reader of the default and of the smallest size, on a bare net.Conn (scripted; counts the bytes asked for), and by the library's connection loop, whose handler optionally answers every message while one transport write is refused with a temporary error; non-trivial = >=2 messages and a read boundary strictly inside a message",
 	Gen:  genCase, Run: runCase, Classify: classify,
 })
 
